@@ -200,6 +200,7 @@ def main(pid, rep=None, finish=True):
         # ---- B2: random grammar streams -----------------------------------------------------------------------------
         b2(pid, rep, rnd, own, 3000 if thorough else 500, d)
         b2_traces(pid, rep, rnd, own, 2000 if thorough else 400)
+        b2_traces(pid, rep, rnd, own, 600 if thorough else 150, overlap=True)
         rep.assume("create_connection is served by a fake transport obeying the asyncio contract; TLS itself is exercised by the live checks")
         rep.assume("the pin store is a real SQLite file; certificates are supplied as DER through the transport's ssl_object")
         rep.set("exhaustive", False)
@@ -354,7 +355,10 @@ def classified_script(rnd, k):
         data = (header + (b"\r\n" if crlf else b"") + body)[:send_len]
         delivered = data[len(header) + 2:] if crlf else b""
         try:
-            delivered.decode(label)
+            import warnings
+            with warnings.catch_warnings():
+                warnings.simplefilter("ignore")          # unicode_escape warns about unknown escapes
+                delivered.decode(label)
             charset = "known"
         except UnicodeDecodeError:
             charset, body_ok = "known", False
@@ -363,54 +367,74 @@ def classified_script(rnd, k):
     return script("cls%d" % k, header, crlf, kind, st, text, charset, body if crlf else b"", body_ok, ends, send_len=send_len, extra_cuts=cuts)
 
 
-def b2_traces(pid, rep, rnd, own, count):
-    """B2 by trace specification: the same kind of random runs, recorded and validated by TLC against ClientConnTrace."""
+def _next_action(h, pts):
+    rec = h.scr["rec"]
+    if h.tr is None:
+        return None
+    if h.tr.pending_lost is not None and not h.tr.lost:
+        return ("LostAfterClose", None)
+    if h.tr.lost:
+        return None
+    if not h.tr.closing:
+        nxt = [p_ for p_ in pts if p_ > h.rx]
+        if nxt:
+            return ("Rx", nxt[0])
+        if rec["ends"] in ("fin", "rst") and h.rx == rec["sendLen"]:
+            return ("PeerEnds", None)
+    return None
+
+
+def b2_traces(pid, rep, rnd, own, count, overlap=False):
+    """B2 by trace specification: the same kind of random runs, recorded and validated by TLC against ClientConnTrace.
+    overlap=True: two calls at a time on ONE GeminiClient object, their callbacks interleaved at random (the reverse proxy
+    uses its client this way); every call is still a behaviour of ClientConn on its own."""
     import tempfile
     traces = []
     metas = []
     for k in range(count):
-        scr = classified_script(rnd, k)
-        rec = scr["rec"]
-        if not rec["crlf"]:
-            # without a terminator everything is header: lengths follow the specification's convention
-            pass
-        tofu = rnd.choice(["off", "first", "match", "match", "changed", "unreadable"])
-        ep = rnd.choice(["get", "upload"])
-        h = ClientHarness(scr, tofu, ep, verify_ssl=(k % 4 == 0))
-        steps = []
+        group = []
+        first = None
+        for j in range(2 if overlap else 1):
+            scr = classified_script(rnd, k * 2 + j)
+            rec = scr["rec"]
+            tofu = "off" if overlap else rnd.choice(["off", "first", "match", "match", "changed", "unreadable"])
+            ep = rnd.choice(["get", "upload"])
+            h = ClientHarness(scr, tofu, ep, verify_ssl=(k % 4 == 0), shared=first)
+            first = first or h
+            pts = sorted(set(c for c in rec["cuts"] if rnd.random() < 0.6) | {rec["sendLen"]}) if rec["sendLen"] else []
+            group.append({"h": h, "pts": pts, "steps": [], "tofu": tofu, "ep": ep})
 
-        def log(act, p=0):
-            o = h.project()
-            steps.append({"act": act, "p": p, "sentReq": o["sentReq"], "caller": o["caller"], "cliClosed": o["cliClosed"], "lost": o["lost"]})
+        def log(g, act, p=0):
+            o = g["h"].project()
+            g["steps"].append({"act": act, "p": p, "sentReq": o["sentReq"], "caller": o["caller"], "cliClosed": o["cliClosed"], "lost": o["lost"]})
         try:
-            if tofu != "off":
-                log("Verify")
-            if h.outcome() == "waiting":
-                pts = sorted(set(c for c in rec["cuts"] if rnd.random() < 0.6) | {rec["sendLen"]}) if rec["sendLen"] else []
-                for p_ in pts:
-                    if h.tr.closing or h.tr.lost:
-                        break
-                    if p_ > h.rx:
-                        h.do("Rx", p_)
-                        log("Rx", p_)
-                if not h.tr.lost and rec["ends"] in ("fin", "rst") and not h.tr.closing and h.rx == rec["sendLen"]:
-                    h.do("PeerEnds")
-                    log("PeerEnds")
-            if h.tr is not None and h.tr.pending_lost is not None and not h.tr.lost:
-                h.do("LostAfterClose")
-                log("LostAfterClose")
-            if h.outcome() == "waiting":
-                h.do("Deadline")
-                log("Deadline")
-                if h.tr.pending_lost is not None and not h.tr.lost:
-                    h.do("LostAfterClose")
-                    log("LostAfterClose")
+            for g in group:
+                if g["tofu"] != "off":
+                    log(g, "Verify")
+            for _ in range(200):
+                ready = [(g, a) for g in group for a in [_next_action(g["h"], g["pts"])] if a is not None and
+                         (a[0] == "LostAfterClose" or g["h"].outcome() == "waiting" or g["h"].tr.pending_lost is not None)]
+                if not ready:
+                    break
+                g, (a, p_) = rnd.choice(ready)
+                g["h"].do(a, p_) if a == "Rx" else g["h"].do(a)
+                log(g, a, p_ or 0)
+            for g in group:
+                if g["h"].outcome() == "waiting":
+                    g["h"].do("Deadline")
+                    log(g, "Deadline")
+                    if g["h"].tr.pending_lost is not None and not g["h"].tr.lost:
+                        g["h"].do("LostAfterClose")
+                        log(g, "LostAfterClose")
         finally:
-            h.close()
-        r_ = dict(rec)
-        r_["cuts"] = sorted(set(rec["cuts"]) | {s_["p"] for s_ in steps if s_["act"] == "Rx"})
-        traces.append({"sc": r_, "tofu": tofu, "ep": ep, "steps": steps})
-        metas.append(scr["data"][:70])
+            for g in reversed(group):
+                g["h"].close()
+        for g in group:
+            rec = g["h"].scr["rec"]
+            r_ = dict(rec)
+            r_["cuts"] = sorted(set(rec["cuts"]) | {s_["p"] for s_ in g["steps"] if s_["act"] == "Rx"})
+            traces.append({"sc": r_, "tofu": g["tofu"], "ep": g["ep"], "steps": g["steps"]})
+            metas.append(("overlapping " if overlap else "") + repr(g["h"].scr["data"][:70]))
     fd, tpath = tempfile.mkstemp(prefix="vf-cct-", suffix=".json")
     with os.fdopen(fd, "w") as f:
         json.dump(traces, f)
@@ -434,7 +458,7 @@ def b2_traces(pid, rep, rnd, own, count):
             continue
         at = info["max"]
         step = t["steps"][at - 1] if at - 1 < len(t["steps"]) else None
-        desc = "recorded call (header %r, script %s, tofu=%s, ep=%s): matched %d of %d steps; next step %s" % (
+        desc = "recorded call (%s, script %s, tofu=%s, ep=%s): matched %d of %d steps; next step %s" % (
             metas[i - 1], {k_: v for k_, v in t["sc"].items() if k_ != "cuts"}, t["tofu"], t["ep"], at - 1, len(t["steps"]), step)
         mine = sorted(bad & own)
         if mine:
@@ -451,10 +475,10 @@ def b2_traces(pid, rep, rnd, own, count):
                 rep.drifted("recorded call rejected by ClientConnTrace: " + desc)
         else:
             rep.drifted("recorded call: invariants %s false (not this property's): %s" % (sorted(bad), desc))
-    rep.add("recorded_calls_validated_by_tlc", len(traces))
-    rep.add("recorded_calls_accepted", acc)
+    rep.add("recorded_calls_validated_by_tlc" + ("_overlapping" if overlap else ""), len(traces))
+    rep.add("recorded_calls_accepted" + ("_overlapping" if overlap else ""), acc)
     rep.add("traces_validated_against_impl", len(traces))
-    if rep.tier == "thorough" and traces:
+    if rep.tier == "thorough" and traces and not overlap:
         # binding self-test: corrupt what the caller got in accepted traces - ClientConnTrace must reject each of them
         bad_traces = []
         for t in traces[:60]:
